@@ -117,3 +117,53 @@ contract(
     },
     sentence={"forall": "the unmasked and masked index lists hold the flattened indices of their pixels in row-major order"},
 )
+
+
+# ----------------------------------------------------------------------------- engine C generators
+import numpy as np
+from pyvc import gens
+from pyvc.contract import CONTRACTS
+
+
+def _masks(rng, tier, max_cells_q=9, max_cells_t=12, n_random_q=40, n_random_t=400, min_unmasked=0):
+    for m in gens.all_masks(gens.budget(tier, max_cells_q, max_cells_t), min_unmasked=min_unmasked):
+        yield m
+    for _ in range(gens.budget(tier, n_random_q, n_random_t)):
+        yield gens.random_mask(rng, 7, 7, min_unmasked=min_unmasked)
+
+
+def _g_mask(rng, tier):
+    for m in _masks(rng, tier):
+        yield {"mask_2d": m}
+
+
+def _g_slim(rng, tier):
+    for m in _masks(rng, tier, 8, 10, 40, 300):
+        yield {"array_2d_native": gens.reals(rng, m.shape), "mask_2d": m}
+
+
+def _g_native(rng, tier):
+    for m in _masks(rng, tier, 8, 10, 40, 300):
+        yield {"array_2d_slim": gens.reals(rng, (int((~m).sum()),)), "mask_2d": m}
+
+
+def _g_idx(rng, tier):
+    for m in _masks(rng, tier, 8, 10, 40, 300):
+        t = np.argwhere(~m).astype(int).reshape(-1, 2)
+        yield {"array_2d_slim": gens.reals(rng, (t.shape[0],)), "shape": tuple(int(s) for s in m.shape),
+               "native_index_for_slim_index_2d": t}
+
+
+def _g_flag(rng, tier):
+    for m in _masks(rng, tier, 8, 10, 30, 300):
+        for f in (True, False):
+            yield {"mask_2d": m, "return_masked_indexes": f}
+
+
+_nt = lambda **kw: any(np.asarray(v).size > 1 and 0 < np.count_nonzero(np.asarray(v)) < np.asarray(v).size
+                       for v in kw.values() if isinstance(v, np.ndarray) and v.dtype == bool)
+for _k, _g in [(M2 + "total_pixels_2d_from", _g_mask), (M2 + "native_index_for_slim_index_2d_from", _g_mask),
+               (A2 + "array_2d_slim_from", _g_slim), (A2 + "array_2d_native_from", _g_native),
+               (A2 + "array_2d_via_indexes_from", _g_idx), (M2 + "mask_slim_indexes_from", _g_flag)]:
+    CONTRACTS[_k].gen = _g
+    CONTRACTS[_k].nontrivial = _nt
